@@ -840,3 +840,102 @@ Definition token_class_status (tok : bytes) : option Z :=
 
 Definition allowed_status (s : Z) : bool :=
   (s =? 200) || (s =? 301) || (s =? 307) || (s =? 400) || (s =? 403) || (s =? 404) || (s =? 405) || (s =? 413).
+
+(* ------------------------------------------------------------------ what an error token asserts (documented argument table) *)
+(* "400 for bad or missing arguments, 404 for an unknown topic/channel" read the other way
+   round: an argument-error token is a statement about the request (and the daemon state
+   it met), and the statement has to be true.  Names: 1..64 bytes of [.a-zA-Z0-9_-] with an
+   optional #ephemeral suffix (Names.is_valid_name); defer: a decimal number of
+   milliseconds in [0, max-req-timeout]; the first value of a repeated argument counts. *)
+Definition qpairs (q : query) : list (bytes * bytes) := match q with QOk ps => ps | QErr ps => ps end.
+
+Definition defer_documented (c : cfg) (ds : bytes) : bool :=
+  match parse_int ds with
+  | Some di => (0 <=? di) && (di * ns_per_ms <=? max_req c)
+  | None => false
+  end.
+
+Inductive arg_token :=
+| TkInvalidRequest | TkMissingTopic | TkMissingChannel | TkInvalidTopic | TkInvalidChannel
+| TkTopicNotFound | TkChannelNotFound | TkInvalidDefer
+| TkInvalidOption | TkInvalidValue | TkBlockRate | TkOther.
+
+Definition arg_token_of (tok : bytes) : arg_token :=
+  if bytes_eqb tok (str "INVALID_REQUEST") then TkInvalidRequest
+  else if bytes_eqb tok (str "MISSING_ARG_TOPIC") then TkMissingTopic
+  else if bytes_eqb tok (str "MISSING_ARG_CHANNEL") then TkMissingChannel
+  else if bytes_eqb tok (str "INVALID_TOPIC") || bytes_eqb tok (str "INVALID_ARG_TOPIC") then TkInvalidTopic
+  else if bytes_eqb tok (str "INVALID_ARG_CHANNEL") then TkInvalidChannel
+  else if bytes_eqb tok (str "TOPIC_NOT_FOUND") then TkTopicNotFound
+  else if bytes_eqb tok (str "CHANNEL_NOT_FOUND") then TkChannelNotFound
+  else if bytes_eqb tok (str "INVALID_DEFER") then TkInvalidDefer
+  else if bytes_eqb tok (str "INVALID_OPTION") then TkInvalidOption
+  else if bytes_eqb tok (str "INVALID_VALUE") then TkInvalidValue
+  else if is_prefix (str "invalid block rate") tok then TkBlockRate
+  else TkOther.
+
+(* the remaining tokens of the API (closed world): no body / "OK", the router's and the TLS
+   gate's answers, the size tokens (their conditions are in the publish monitor and in
+   C10_pub_oversize_413 ff.), and the tokens of the 5xx answers that the healthy-backend
+   hypothesis excludes (never an allowed status) *)
+Definition other_tokens : list bytes :=
+  [[]; str "OK"; str "NOT_FOUND"; str "METHOD_NOT_ALLOWED"; str "TLS_REQUIRED";
+   str "MSG_TOO_BIG"; str "MSG_EMPTY"; str "BODY_TOO_BIG"; str "BAD_BODY"; str "BAD_MESSAGE";
+   str "NOK"; str "INTERNAL_ERROR"; str "EXITING"].
+
+(* PUT /config/:opt knows two options *)
+Definition config_opt (r : request) : bytes := skipn 8 (r_path r).      (* after "/config/" *)
+
+Definition token_justified (c : cfg) (st : state) (r : request) (tok : bytes) : bool :=
+  let ps := qpairs (r_query r) in
+  let topic := qget k_topic ps in
+  let chan := qget k_channel ps in
+  match arg_token_of tok with
+  | TkInvalidRequest => (match r_query r with QErr _ => true | QOk _ => false end) || r_body_err r
+  | TkMissingTopic => match topic with None => true | Some _ => false end
+  | TkMissingChannel => match chan with None => true | Some _ => false end
+  | TkInvalidTopic => match topic with Some t => negb (is_valid_name t) | None => false end
+  | TkInvalidChannel => match chan with Some ch => negb (is_valid_name ch) | None => false end
+  | TkTopicNotFound => match topic with Some t => negb (topic_exists st t) | None => false end
+  | TkChannelNotFound => match topic, chan with
+                         | Some t, Some ch => negb (chan_exists st t ch)
+                         | _, _ => false
+                         end
+  | TkInvalidDefer => match qget k_defer ps with Some ds => negb (defer_documented c ds) | None => false end
+  | TkInvalidOption =>
+      negb (existsb (bytes_eqb (config_opt r)) (cfg_names c)) ||
+      (method_eqb (r_method r) MPut &&
+       negb (bytes_eqb (config_opt r) opt_lookupd || bytes_eqb (config_opt r) opt_log_level))
+  | TkInvalidValue =>
+      method_eqb (r_method r) MPut &&
+      ((blen (r_body r) =? 0) || (max_msg c <? blen (r_body r))
+       || (bytes_eqb (config_opt r) opt_lookupd && negb (r_json_ok r))
+       || (bytes_eqb (config_opt r) opt_log_level && negb (log_level_ok (r_body r))))
+  | TkBlockRate =>
+      match parse_int (match qget k_rate ps with Some v => v | None => [] end) with
+      | None => true
+      | Some _ => false
+      end
+  | TkOther => existsb (bytes_eqb tok) other_tokens
+  end.
+
+(* ... and the other way round for the ten admin endpoints: a well-formed POST (parsable
+   query, body read without error) whose named object satisfies the endpoint's documented
+   precondition must be answered 200 *)
+Definition admin_precondition (path : bytes) (st : state) (t : option bytes) (ch : option bytes) : option bool :=
+  let is (p : bytes) := bytes_eqb path p in
+  match t with
+  | None => if is_prefix (str "/topic/") path || is_prefix (str "/channel/") path then Some false else None
+  | Some t =>
+      if is (str "/topic/create") then Some (is_valid_name t)
+      else if is (str "/topic/delete") || is (str "/topic/pause") || is (str "/topic/unpause") then Some (topic_exists st t)
+      else if is (str "/topic/empty") then Some (is_valid_name t && topic_exists st t)
+      else match ch with
+           | None => if is_prefix (str "/channel/") path then Some false else None
+           | Some ch =>
+               if is (str "/channel/create") then Some (is_valid_name t && is_valid_name ch && topic_exists st t)
+               else if is (str "/channel/delete") || is (str "/channel/empty") || is (str "/channel/pause") || is (str "/channel/unpause")
+               then Some (is_valid_name t && is_valid_name ch && chan_exists st t ch)
+               else None
+           end
+  end.
